@@ -1,26 +1,143 @@
 """C10 — clean-up passes never change what the function computes."""
+import os
 
-FILES = ["c09.go", "c10.go", "gen_passfacts.go"]
+FILES = ["c09.go", "c10.go", "gen_passfacts.go", "gen_branchops.go"]
+LEAN = ["AvoVerif.Props.C10", "AvoVerif.Props.C10Tables", "AvoVerif.Props.C10Sim", "AvoVerif.Props.C10SelfMove",
+        "AvoVerif.Props.C10Accept", "AvoVerif.Props.C10Compose", "AvoVerif.Props.C10Pruned",
+        "AvoVerif.Props.C10General"]
+
+# Lower bounds (quick tier, n = 2500) on what the generators produced and the REAL passes did: if a stream dries up, if
+# the passes stop deleting anything, or if pass.Compile starts rejecting the generated functions, the run is not a pass.
+FLOORS = {
+    "jumps": 9000, "labels": 11000, "selfmoves": 2400, "compile": 9500, "enum": 20000,
+    "jumps_deleted_instr": 500, "labels_deleted_labels": 2500, "selfmoves_deleted_instr": 3000,
+    "compile_changed": 4000, "compile_deleted_instr": 3000, "compile_virtual_moves": 6000,
+    "deleted_opcode:JMP": 1500, "deleted_opcode:MOVB": 800, "deleted_opcode:MOVW": 800, "deleted_opcode:MOVQ": 3000,
+    "call_label": 3000, "labels_nbref": 300, "compile_nbref": 300, "jcc_before_label": 200,
+}
+
+
+def floors(ctx, stats):
+    for key, lo in FLOORS.items():
+        ctx.obligations += 1
+        got = stats.get(key, 0)
+        if got < lo:
+            ctx.obligation_failures.append((f"c10 sample floor {key}", f"{got} < {lo}: the generator/implementation no longer yields enough of these cases"))
+        else:
+            ctx.discharged += 1
+    for key in ("build_failed",):
+        ctx.obligations += 1
+        if stats.get(key, 0) != 0:
+            ctx.obligation_failures.append((f"c10 generator {key}", f"{stats.get(key)} (must be 0)"))
+        else:
+            ctx.discharged += 1
+    # self-moves that only the allocator can create (a move between two different virtual registers that received the
+    # same physical register): deleted ones plus kept ones (MOVL). A low floor: which registers coincide is the allocator's choice.
+    ctx.obligations += 1
+    made = sum(v for k, v in stats.items() if k.startswith("compile_deleted_allocator_selfmoves") or k.startswith("compile_kept_allocator_selfmoves"))
+    if made < 200:
+        ctx.obligation_failures.append(("c10 sample floor allocator-created self-moves", f"{made} < 200"))
+    else:
+        ctx.discharged += 1
+    ctx.obligations += 1
+    if stats.get("compile_rejected", 0) > 250:
+        ctx.obligation_failures.append(("c10 compile stream", f"pass.Compile rejected {stats.get('compile_rejected')} of the generated functions (> 250)"))
+    else:
+        ctx.discharged += 1
+
+
+def exact_agreement(ctx):
+    """INFORMATIONAL: line-by-line comparison of the real passes with the Lean models pruneJumps / pruneLabels /
+    pruneSelfMoves (and their composition for the compile stream). The property does not pin WHICH no-ops a pass
+    deletes, so a difference here is not a failure; the judgement is the acceptor's. It is recorded because the
+    simulation theorems are about these models: where the implementation agrees line by line they apply verbatim."""
+    base = os.path.join(ctx.dir, "c10")
+    ops, impl, model = base + ".ops.exact", base + ".impl.exact", base + ".model.exact"
+    if not (os.path.exists(ops) and os.path.exists(impl)):
+        return
+    if not ctx.run_driver(ops, model):
+        return
+    per = {}
+    examples = []
+    with open(ops) as fo, open(impl) as fi, open(model) as fm:
+        for req, a, b in zip(fo, fi, fm):
+            name = req.split(" ", 2)[1] if " " in req else "?"
+            t = per.setdefault(name, [0, 0])
+            t[0] += 1
+            if a != b:
+                t[1] += 1
+                if len(examples) < 3:
+                    examples.append({"request": req.strip()[:300], "impl": a.strip()[:200], "model": b.strip()[:200]})
+    ctx.evaluations += sum(t[0] for t in per.values())
+    ctx.coverage["exact_model_agreement"] = {k: {"compared": v[0], "different": v[1]} for k, v in per.items()}
+    diff = sum(t[1] for t in per.values())
+    ctx.log(f"c10 exact (informational): {sum(t[0] for t in per.values())} outputs compared with the model passes, {diff} differ")
+    if diff:
+        ctx.coverage["exact_model_agreement"]["examples"] = examples
+        ctx.notes.append(f"the real passes differ from the line-by-line Lean models in {diff} outputs; every output was judged by the acceptor "
+                         "(only removable nodes deleted), so this is not a violation, but the simulation theorems about the MODEL passes "
+                         "(pruneJumps_run, pruneLabels_run, pruneSelfMoves_run, cleanup_run) then describe a slightly different algorithm")
+
 
 def run(ctx):
     if not ctx.build_harness(FILES):
         return
-    ctx.regen([("Gen/PassFacts", "PassFacts")])
+    ctx.regen([("Gen/PassFacts", "PassFacts"), ("Gen/BranchOps", "BranchOps")])
     ctx.forbidden_scan()
     if not ctx.build_driver():
         return
-    if ctx.lake_each(["AvoVerif.Props.C10", "AvoVerif.Props.C10Tables", "AvoVerif.Props.C10Sim", "AvoVerif.Props.C10SelfMove"]):
+    if ctx.lake_each(LEAN):
         ctx.audit("C10")
     if ctx.tier == "thorough":
-        ctx.leanchecker(["AvoVerif.Props.C10", "AvoVerif.Props.C10Tables", "AvoVerif.Props.C10Sim", "AvoVerif.Props.C10SelfMove"])
-    nt = lambda req, resp: req.startswith("accept-cleanup") and len(req.split(" => ")[0].split()) > len(resp.split()) + 6
+        ctx.leanchecker(LEAN)
+    nt = lambda req, resp: req.startswith("accept-cleanup") and len(req.split(" => ")[0].split()) > len(req.split(" => ")[1].split()) + 8
+    ctx.run_corpus("c10", nontrivial=nt)
     n = 2500 if ctx.tier == "quick" else 60000
-    ctx.differential("c10", n, nontrivial=nt)
-    ctx.coverage["rule"] = ("generated node lists (jumps directly before their label, chains of jumps, comments between, unreferenced and "
-                            "referenced labels, labels referenced only by CALL, malformed lists) through the real PruneJumpToFollowingLabel "
-                            "and PruneDanglingLabels, and register-move functions (MOVB/MOVW/MOVL/MOVQ incl. AL/AH of one register, vector "
-                            "MOVQ/MOVOU, runs of consecutive self-moves) through the real PruneSelfMoves: exact comparison with the model "
-                            "and a semantic acceptor (result is a sublist; every deleted instruction is a jump to the very next instruction "
-                            "or a plain GP self-move; every surviving instruction has the same successors after contracting the deleted ones)")
-    ctx.assumptions += ["register-to-register MOV semantics (execMov) is hand-written from the Intel SDM: MOVL zero-extends, MOVQ xmm,xmm clears bits 64-127",
-                        "self-move removal is proved as a whole-program stuttering simulation for all executions (pruneSelfMoves_step, pruneSelfMoves_run, pruneSelfMoves_steps_bound, pruneSelfMoves_halts, pruneSelfMoves_run_entry in Props/C10SelfMove.lean) under two explicit hypotheses on the instruction semantics: hself (a deleted self-move leaves the machine state unchanged and falls through; justified per instruction on register files by prune_selfmov_ok / hself_of_execMov) and hcf (a deleted self-move is neither a branch nor a return); jump and label removal are proved as lock-step simulations (pruneJumps_run, pruneLabels_step)"]
+    if ctx.differential("c10", n, nontrivial=nt) is not None and not ctx.replay:
+        floors(ctx, ctx.coverage.get("input_distribution", {}).get("c10", {}))
+        exact_agreement(ctx)
+    ctx.coverage["rule"] = (
+        "Every output of the REAL passes is judged by one pass-independent acceptor (Props/C10Accept.lean: walk, walk_sound): the result "
+        "must be the original node list with some nodes deleted, and a deleted node must be a comment, a label that no remaining "
+        "instruction refers to (by a branch OR by CALL label), a jump (J.. opcode) whose label stands in the label run directly behind it, "
+        "or a register move onto the same register whose execMov semantics is the identity (MOVB/MOVW/MOVQ on general-purpose registers, "
+        "legacy-SSE full 128-bit moves on XMM registers; never MOVL r,r, never MOVQ x,x on vector registers, never AL/AH of one register); "
+        "independently, on functions with a well-formed CFG, every surviving instruction must keep its successors (model of "
+        "LabelTarget+CFG) once deleted instructions are contracted. Streams: (1) generated node lists (jumps directly before their "
+        "label, chains of jumps, comments between, conditional jumps before their label, unreferenced and referenced labels, labels "
+        "referenced only by CALL, CALL to undefined labels, malformed lists) through PruneJumpToFollowingLabel, PruneDanglingLabels and "
+        "both in Compile's order; (2) EVERY node sequence up to length 4 (thorough: 5) over {label a, label b, comment, NOP, RET, JMP a, "
+        "JNE a, JMP b, CALL a} through the same; (3) register-move functions (MOVB/MOVW/MOVL/MOVQ incl. AL/AH of one register, vector "
+        "MOVQ/MOVOU/MOVAPS/VMOVDQU, runs of consecutive self-moves, inside loops) through PruneSelfMoves; (4) functions over 2-4 virtual "
+        "registers with moves of all widths, loops, jumps to the next label and CALL label through the whole real pass.Compile, judged "
+        "on the registers the allocator chose (self-moves created by the allocator; behavioural check of the pass order). The "
+        "line-by-line comparison with the model passes is INFORMATIONAL (coverage.exact_model_agreement): the property does not pin which "
+        "no-ops are deleted. Sample floors per stream are obligations of the run. Non-trivial = something was deleted")
+    ctx.assumptions += [
+        "register-to-register MOV semantics (execMov/movKind) is hand-written from the Intel SDM: MOVB/MOVW/MOVQ copy the operand's bytes, "
+        "MOVL zero-extends, MOVQ xmm,xmm clears bits 64-127, MOVAPS/MOVAPD/MOVUPS/MOVUPD/MOVOA/MOVOU xmm,xmm copy bits 0-127 and preserve the rest",
+        "jumps are the opcodes starting with J (isJumpOpcode); none of them writes a register or a flag (hand-written; C09's "
+        "features_are_x86_classes ties avo's branch flags to the same classification)",
+        "behaviour preservation is PROVED (a) for the three model passes and their composition in Compile's order (pruneJumps_run, "
+        "pruneLabels_run, pruneSelfMoves_run: lock-step/stuttering simulations for all executions; cleanup_halts_partial: equal halting "
+        "states) and (b) for EVERY output the acceptor's walk accepts, whatever algorithm produced it (accepted_halts_partial via walk_sound "
+        "and pruned_halts_partial: if the original halts in state t so does the result) - for any instruction semantics in which the "
+        "deleted instructions change no state, are not returns and, if flagged as branches, target the label run behind them "
+        "(DeletedAreNoops; for the model passes: hjmp, hself, hcf with hcf discharged from the regenerated form table by "
+        "selfMove_not_cf and hself from execMov by hself_of_execMov), on functions with pairwise distinct labels (else LabelTarget "
+        "rejects the function). Both composed theorems are PARTIAL: the converse direction (result halts => original halts) and "
+        "preservation of non-termination are proved per pass for jumps and self-moves only",
+        "that the three model passes satisfy the acceptor's statement (Pruned) is proved (pruneJumps_pruned, pruneLabels_pruned, "
+        "pruneSelfMoves_pruned) under the form-table conditions named there; pruneLabels_not_pruned_call proves that the model of "
+        "PruneDanglingLabels (= the code) leaves the statement on the F10b witness",
+        "prune_selfmov_ok is conditional on the operand widths fitting the opcode (movKind = notAMove otherwise); the acceptor demands "
+        "movKind = plain on every deleted instruction of the real passes",
+        "label references by non-branch instructions other than as first operand are not modelled (the form table has none: rel_operand_opcodes)",
+        "taken branches without a label operand (indirect JMP) halt both programs in the simulation theorems (no statement about them)",
+        "the pass list of Compile is read from the source by evaluating its initialiser (gen_passfacts.go); passes are matched by the "
+        "function name inside the wrapper, e.g. FunctionPass(CFG): a pass stored in a differently named variable is not recognised "
+        "(obligation failure, not a silent pass); the order is additionally exercised behaviourally by stream (4)",
+        "allocator-created self-moves are covered by stream (4) on at most 4 virtual GP registers; execution on the CPU is C01's (c01x)",
+    ]
+    ctx.trusted += ["harness/c10.go: encoding of nodes/operands into request lines, instruction identity by pointer (uid)",
+                    "Drv/C10.lean: request parsing, cfgVerdicts (the second, CFG-based successor comparison has no soundness theorem; it can only add objections; the walk has walk_sound)"]
